@@ -6,10 +6,12 @@ from . import domain as D
 
 def main():
     F = facts('default')
-    I = Interp(F)
+    I = Interp(F, max_disj=int(__import__('os').environ.get('MAXD', '400')))
     if 'NOCONTRACT' not in __import__('os').environ: install_offset_contract(I)
     install_partitions(I)
     if 'SPLIT' in __import__('os').environ: install_splitter_contract(I)
+    if 'TZ' in __import__('os').environ:
+        from .entries import install_tz_partitions, install_cursor_contracts; install_tz_partitions(I); install_cursor_contracts(I)
     I.debug = 'DEBUG' in __import__('os').environ
     pats = sys.argv[1:]
     names = [n for n in F.bodies if any(p in n for p in pats) and F.bodies[n]['kind'] in ('Fn', 'AssocFn')]
